@@ -160,3 +160,22 @@ Theorem get_counts_is_distribution : forall (SR : StarRing) (c : mcircuit SR),
   exists f, cq_eval c = Ok f /\ bsum (nb (cod_or_nil c)) (fun o => cq_mat f [] o) = r1.
 Proof. exact CQLemmas.get_counts_is_distribution. Qed.
 Print Assumptions get_counts_is_distribution.
+
+(* CQMap.tensor AS CODED (the swap network  above >> f @ g >> below  of cqmap.py:
+   two layers of block swaps, the plain Kronecker product, two layers of block swaps:
+   cq_tensor_net) equals the closed form cq_tensor used by the executable model and by
+   every theorem above, on every index of the (co)domain -- for all maps f, g and all
+   type shapes; proved in CQ/CQTensorNet.v (every swap layer relabels the index) *)
+Require DV.CQ.CQTensorNet.
+Theorem cq_tensor_is_kron_on_each_sector : forall (SR : StarRing) (f g : cqmap SR),
+  meq (uw (cq_add (cq_dom f) (cq_dom g))) (uw (cq_add (cq_cod f) (cq_cod g)))
+      (cq_mat (cq_tensor_net f g)) (cq_mat (cq_tensor f g)).
+Proof. exact CQTensorNet.cq_tensor_is_kron_on_each_sector. Qed.
+Print Assumptions cq_tensor_is_kron_on_each_sector.
+
+(* the network and the closed form have the same CQ types *)
+Theorem cq_tensor_net_types : forall (SR : StarRing) (f g : cqmap SR),
+  cq_dom (cq_tensor_net f g) = cq_dom (cq_tensor f g)
+  /\ cq_cod (cq_tensor_net f g) = cq_cod (cq_tensor f g).
+Proof. exact CQTensorNet.cq_tensor_net_types. Qed.
+Print Assumptions cq_tensor_net_types.
